@@ -38,7 +38,7 @@ atom("o_wild_notpsl", "origins", "valid", ["https://*.www.ck", "https://*.city.k
 bad = ["invalid", "prohibited"]
 atom("o_null", "origins", "malformed", ["null"], reasons=bad)
 atom("o_file", "origins", "malformed", ["file:///somepath", "file://example.com"], reasons=bad)
-atom("o_unicode", "origins", "malformed", ["https://www.résumé.com", "https://exämple.com"], reasons=bad)
+atom("o_unicode", "origins", "malformed", ["https://www.résumé.com", "https://exämple.com", "https://\u212aelvin.example.com", "https://exa\u0130mple.com", "http\u017f://example.com"], reasons=bad)
 atom("o_upper", "origins", "malformed", ["https://EXAMPLE.com", "https://example.Com"], reasons=bad)
 atom("o_defport", "origins", "malformed", ["https://example.com:443", "http://example.com:80", "http://*.example.com:80"], reasons=bad)
 atom("o_badport", "origins", "malformed", ["https://example.com:0", "https://example.com:65536", "https://example.com:080", "https://example.com:",
@@ -47,7 +47,8 @@ atom("o_tail", "origins", "malformed", ["https://example.com/", "https://example
                                        "https://user@example.com", "https://user:pw@example.com"], reasons=bad)
 atom("o_ws", "origins", "malformed", [" https://example.com", "https://example.com ", "https://exa mple.com", "\thttps://example.com"], reasons=bad)
 atom("o_ipbad", "origins", "malformed", ["http://[0:0:0:0:0:0:0:0001]:9090", "http://[0000:0000:0000:0000:0000:0000:0000:0001]", "http://[::ffff:1.2.3.4]",
-                                        "http://[fe80::1%eth0]", "http://127.0.0.1.5", "http://256.0.0.1", "http://[::1", "http://::1]", "http://[[::1]]"], reasons=bad)
+                                        "http://[fe80::1%eth0]", "http://127.0.0.1.5", "http://256.0.0.1", "http://0x7f000001", "http://0xff000000:8080", "http://127.0.0.0x1",
+                                        "http://192.168.0x1:9090", "http://10.0.0.0xa:*", "http://127.1", "http://2130706433", "http://0177.0.0.1", "http://0x7f.0.0.1", "http://1.2.3", "http://[::1", "http://::1]", "http://[[::1]]"], reasons=bad)
 atom("o_wildbad", "origins", "malformed", ["https://*example.com", "https://foo.*.com", "https://*.*.example.com", "http://*.127.0.0.1", "https://*",
                                           "https://**.example.com", "https://*.", "http://*.[::1]", "https://ex*mple.com"], reasons=bad)
 atom("o_long", "origins", "malformed", ["https://" + "a" * 64 + ".com", "https://" + ".".join(["a" * 63] * 4) + ".toolong",
@@ -61,7 +62,7 @@ atom("m_safe", "methods", "safelisted", ["GET", "HEAD", "POST", "get", "Post", "
 atom("m_norm", "methods", "valid", ["PUT", "put", "Delete", "OPTIONS", "options", "DELETE"])
 atom("m_custom", "methods", "valid", ["PATCH", "patch", "PURGE", "QUERY", "M-SEARCH", "x"])
 atom("m_forbidden", "methods", "bad", ["CONNECT", "TRACE", "TRACK", "connect", "Trace", "tRaCk"], reasons=["forbidden"])
-atom("m_invalid", "methods", "bad", ["", "résumé", "a b", "GET,POST", "(", "PUT ", "\u0000"], reasons=["invalid"])
+atom("m_invalid", "methods", "bad", ["", "résumé", "a b", "GET,POST", "(", "PUT ", "\u0000", "\u017fEARCH", "PO\u017fT", "trac\u212a", "DELETE,PUT"], reasons=["invalid"])
 
 # ------------------------------------------------------------------ request headers
 atom("h_star", "reqh", "star", ["*"])
@@ -72,7 +73,10 @@ atom("h_forbidden", "reqh", "bad", ["Cookie", "cookie", "Host", "Sec-Fetch-Mode"
                                    "Accept-Encoding", "TE", "Via", "SEC-", "Proxy-"], reasons=["forbidden"])
 atom("h_prohibited", "reqh", "bad", ["Access-Control-Allow-Origin", "access-control-allow-headers", "Access-Control-Allow-Methods", "ACCESS-CONTROL-ALLOW-CREDENTIALS",
                                     "Access-Control-Expose-Headers", "Access-Control-Max-Age", "Access-Control-Allow-Private-Network"], reasons=["prohibited"])
-atom("h_invalid", "reqh", "bad", ["", "bad header", "résumé", "x:y", "a,b", " x", "\u0000"], reasons=["invalid"])
+atom("h_invalid", "reqh", "bad", ["", "bad header", "résumé", "x:y", "a,b", " x", "\u0000",
+                                  # non-ASCII runes whose Unicode case mapping is ASCII (Kelvin sign -> k, dotted capital I -> i, long s -> S):
+                                  # invalid as supplied, valid / forbidden / safelisted look-alikes after a careless ToLower / ToUpper
+                                  "X-\u212aey", "x-t\u0130me", "Coo\u212aie", "\u017fet-x", "Or\u0130gin"], reasons=["invalid"])
 
 # ------------------------------------------------------------------ response headers
 atom("e_star", "resph", "star", ["*"])
@@ -81,7 +85,7 @@ atom("e_safe", "resph", "safelisted", ["Cache-Control", "content-language", "Con
 atom("e_forbidden", "resph", "bad", ["Set-Cookie", "set-cookie2", "SET-COOKIE"], reasons=["forbidden"])
 atom("e_prohibited", "resph", "bad", ["Origin", "Access-Control-Request-Method", "access-control-request-headers", "Access-Control-Request-Private-Network", "ORIGIN"],
      reasons=["prohibited"])
-atom("e_invalid", "resph", "bad", ["", "bad header", "résumé", "a,b"], reasons=["invalid"])
+atom("e_invalid", "resph", "bad", ["", "bad header", "résumé", "a,b", "X-Response-T\u0130me", "Exp\u0130res", "Set-Coo\u212aie", "Or\u0130gin", "x-\u212a"], reasons=["invalid"])
 
 out = os.path.join(os.path.dirname(os.path.abspath(__file__)), "atoms.json")
 json.dump({"atoms": A}, open(out, "w"), indent=1, ensure_ascii=True)
